@@ -701,30 +701,25 @@ func (self Node) Gets(keys []PathNode, opts *Options) error {
 	}
 
 	need := len(keys)
+	strKey := self.kt == proto.STRING
 	for count := 0; it.HasNext() && count < need; {
+		// read ONE pair, then compare its key with every requested key
+		var ks string
+		var ki, s, e int
+		if strKey {
+			_, ks, s, e = it.NextStr(UseNativeSkipForGet)
+		} else {
+			_, ki, s, e = it.NextInt(UseNativeSkipForGet)
+		}
+		if it.Err != nil {
+			return errNode(meta.ErrRead, "", it.Err)
+		}
 		for j, id := range keys {
-			if id.Path.Type() == PathStrKey {
-				exp := id.Path.str()
-				_, key, s, e := it.NextStr(UseNativeSkipForGet)
-				if it.Err != nil {
-					return errNode(meta.ErrRead, "", it.Err)
-				}
-				if key == exp {
-					keys[j].Node = self.slice(s, e, et)
-					count += 1
-					break
-				}
-			} else if id.Path.Type() == PathIntKey {
-				exp := id.Path.int()
-				_, key, s, e := it.NextInt(UseNativeSkipForGet)
-				if it.Err != nil {
-					return errNode(meta.ErrRead, "", it.Err)
-				}
-				if key == exp {
-					keys[j].Node = self.slice(s, e, et)
-					count += 1
-					break
-				}
+			if (strKey && id.Path.Type() == PathStrKey && id.Path.str() == ks) ||
+				(!strKey && id.Path.Type() == PathIntKey && id.Path.int() == ki) {
+				keys[j].Node = self.slice(s, e, et)
+				count += 1
+				break
 			}
 		}
 	}
